@@ -215,6 +215,13 @@ func c01Queries(depth, maxRows int) (queries []*Query, nDom, nS int) {
 							w.Where = outerPred
 							w.Proj = []Proj{{E: Col("s.a")}, {E: Col("s.b")}}
 							queries = append(queries, w)
+							// the outer query uses ONE column of the subquery: whatever the inner DISTINCT / ORDER BY / LIMIT
+							// computed over the other columns must not change
+							one := NewQuery()
+							one.From = &From{Sub: in, Alias: "s"}
+							one.Where = outerPred
+							one.Proj = []Proj{{E: Col("s.a")}}
+							queries = append(queries, one)
 						}
 					}
 				}
